@@ -1228,6 +1228,7 @@ func rulesNewickParser(c *Ctx, r *Report) {
 	}
 	// inputs
 	stateIdx, errIdx, pfIdx := -1, -1, -1
+	var pfHelper *ssa.Function
 	tokIdx := map[string]int{}
 	type depthCond struct {
 		idx int
@@ -1248,6 +1249,20 @@ func rulesNewickParser(c *Ctx, r *Report) {
 		fmt.Sscanf(in.name, "cond%d", &k)
 		desc := m.condDesc[k-1]
 		desc = desc[strings.Index(desc, "= ")+2:]
+		// a helper that parses the number and stores it through a pointer: its error result is the parse condition
+		if bo, ok := in.v.(*ssa.BinOp); ok && pfHelper == nil {
+			for _, opv := range []ssa.Value{bo.X, bo.Y} {
+				if cl, ok := opv.(*ssa.Call); ok {
+					if g := cl.Call.StaticCallee(); g != nil && g.Blocks != nil && c.inModule(g) && g != tok && len(g.Params) == 2 && numberIntoPointer(g) {
+						pfHelper = g
+						pfIdx = i
+					}
+				}
+			}
+			if pfIdx == i {
+				continue
+			}
+		}
 		switch {
 		case strings.Contains(desc, "ParseFloat"):
 			pfIdx = i
@@ -1304,6 +1319,9 @@ func rulesNewickParser(c *Ctx, r *Report) {
 		for _, e := range p.events {
 			if strings.HasSuffix(e, "nextToken()") || strings.Contains(e, "nameFromText(") && !strings.HasPrefix(e, "store ") {
 				continue
+			}
+			if pfHelper != nil && strings.HasPrefix(e, qname(pfHelper)+"(") && !strings.HasPrefix(p.exit, "next(") {
+				continue // the number helper failed: it stores nothing (checked on its body), only its error comes back
 			}
 			evs = append(evs, norm(e))
 		}
@@ -1380,6 +1398,8 @@ func rulesNewickParser(c *Ctx, r *Report) {
 		case len(evs) == 1 && strings.HasPrefix(evs[0], fmt.Sprintf("store load(LOOP0[(builtin:len(LOOP0) - 1)]).f%d = call:", nameF)) && strings.Contains(evs[0], "nameFromText(extract:0(") && stackNext == "":
 			return "name->" + st
 		case len(evs) == 1 && strings.HasPrefix(evs[0], fmt.Sprintf("store load(LOOP0[(builtin:len(LOOP0) - 1)]).f%d = extract:0(call:strconv.ParseFloat(extract:0(", distF)) && stackNext == "":
+			return "dist->" + st
+		case len(evs) == 1 && pfHelper != nil && strings.HasPrefix(evs[0], qname(pfHelper)+"(extract:0(") && strings.HasSuffix(evs[0], fmt.Sprintf(",load(LOOP0[(builtin:len(LOOP0) - 1)]).f%d)", distF)) && stackNext == "":
 			return "dist->" + st
 		}
 		return "?" + strings.Join(evs, "; ") + " => " + p.exit
@@ -1555,4 +1575,44 @@ func readFailed(m *fsm, p *fsmPoint) bool {
 		}
 	}
 	return false
+}
+
+// numberIntoPointer: g(text, p) parses text with strconv.ParseFloat(_, 64), stores the value through p only on
+// success, and returns the parse error.
+func numberIntoPointer(g *ssa.Function) bool {
+	var pf *ssa.Call
+	instrs(g, func(in ssa.Instruction) {
+		if cl, ok := in.(*ssa.Call); ok && fnIs(cl.Call.StaticCallee(), "strconv", "ParseFloat") {
+			pf = cl
+		}
+	})
+	if pf == nil || pf.Call.Args[0] != ssa.Value(g.Params[0]) {
+		return false
+	}
+	if k, ok := cInt(constVal(pf.Call.Args[1])); !ok || k != 64 {
+		return false
+	}
+	var val, perr ssa.Value
+	for _, ref := range *pf.Referrers() {
+		if ex, ok := ref.(*ssa.Extract); ok {
+			if ex.Index == 0 {
+				val = ex
+			} else {
+				perr = ex
+			}
+		}
+	}
+	nStores, okStore := 0, false
+	instrs(g, func(in ssa.Instruction) {
+		if st, ok := in.(*ssa.Store); ok {
+			if _, local := st.Addr.(*ssa.Alloc); local {
+				return
+			}
+			nStores++
+			if st.Addr == ssa.Value(g.Params[1]) && st.Val == val && perr != nil && nilEdgeOfDominates(perr, st.Block()) {
+				okStore = true
+			}
+		}
+	})
+	return nStores == 1 && okStore
 }
